@@ -125,6 +125,9 @@ Theorem C05_code_tie : gen_sites = model_sites /\ (forall n e, gen_auto_add_exte
   /\ gen_flows = model_flows /\ gen_load_rule = model_load_rule.
 Proof. exact (conj bridge_sites (conj bridge_auto_add_extension (conj bridge_flows bridge_load_rule))). Qed.
 
+Theorem C05_engine_forwarded : gen_engine_forwarded_everywhere = true.
+Proof. exact bridge_engine_forwarded. Qed.
+
 Print Assumptions C05_policy.
 Print Assumptions C05_conflict_atomic.
 Print Assumptions C05_monotone.
@@ -134,4 +137,5 @@ Print Assumptions C05_name_resolution.
 Print Assumptions C05_write_failure_atomic.
 Print Assumptions C05_refines_spec_through_generated_flow.
 Print Assumptions C05_generated_dispatch_is_policy.
+Print Assumptions C05_engine_forwarded.
 Print Assumptions C05_code_tie.
